@@ -72,6 +72,13 @@ func c18Unit(name string, lvl int) core.Unit {
 					if strings.TrimSpace(pv.String()) != s {
 						viol("version-string", []string{ps}, "String() == input up to surrounding whitespace", fmt.Sprintf("%q", pv.String()))
 					}
+					// the padded value against the unpadded value of the same text
+					if c1, p1 := eco.SafeCompare(pv, v); p1 != nil || c1 != 0 {
+						viol("version-padding-compare", []string{ps, s, s}, "Compare(padded, unpadded)=0", fmt.Sprintf("%d", c1))
+					} else if c2, p2 := eco.SafeCompare(v, pv); p2 != nil || c2 != 0 {
+						viol("version-padding-compare", []string{ps, s, s}, "Compare(unpadded, padded)=0", fmt.Sprintf("%d", c2))
+					}
+					r.Add("evaluations", 2)
 					for k, pi := range probes {
 						c1, p1 := eco.SafeCompare(pv, u.Vers[pi])
 						c2, p2 := eco.SafeCompare(u.Vers[pi], pv)
@@ -309,7 +316,7 @@ func init() {
 				"distinct_nontrivial":           r.Counters["nontrivial"],
 			}
 		},
-		Rule:        "for every accepted version string of C01's quick universe and every accepted range string of the range grammar: String() equals the input up to outer whitespace; String() parses again to an equal value (ranges: identical membership on a 40-version probe set); every padding lead x trail over {'', SP, TAB, LF, CR} (thorough: 8 paddings incl. two-character ones) leaves acceptance, String(), and Compare against a stride probe set (24 / 80 versions, both argument orders, and padded-vs-padded) / Contains unchanged; rejected candidate strings stay rejected when padded. distinct_nontrivial = accepted versions + accepted ranges.",
+		Rule:        "for every accepted version string of C01's quick universe and every accepted range string of the range grammar: String() equals the input up to outer whitespace; String() parses again to an equal value (ranges: identical membership on a 40-version probe set); every padding lead x trail over {'', SP, TAB, LF, CR} (thorough: 8 paddings incl. two-character ones) leaves acceptance, String(), Compare against the unpadded value itself (= 0) and Compare against a stride probe set (24 / 80 versions, both argument orders, and padded-vs-padded) / Contains unchanged; rejected candidate strings stay rejected when padded. distinct_nontrivial = accepted versions + accepted ranges.",
 		Assumptions: []string{"paddings are drawn from space, tab, CR, LF as the property states"},
 	})
 }
